@@ -46,7 +46,7 @@ watched parameter that has a queued event (theorem `one_event_per_parameter_with
 theorem flush_first_round (c : Cfg) (f : Nat) (w : World) (he : w.events ≠ [])
     (hok : (run c f (.flushRound (sortByPrec w.queued) w.events) { w with events := [], queued := [] }).1 = .ok) :
     ∃ tail, callSigs (run c (f + 1) .flush w).2.2 =
-      (sortByPrec w.queued).map (fun wt => (wt.id, evsFor w.trigger wt w.events, true)) ++ tail := by
+      (sortByPrec w.queued).map (fun wt => (wt.cb, evsFor w.trigger wt w.events, true)) ++ tail := by
   have hne : w.events.isEmpty = false := by
     cases hh : w.events with
     | nil => exact absurd hh he
@@ -107,7 +107,7 @@ def C04_per_watcher_full : Prop :=
 
 theorem C04_per_watcher_full_refuted : ¬ C04_per_watcher_full := by
   intro h
-  have := h false ⟨0, [0, 1], true, false, 0, 0⟩ [⟨0, 0, 1⟩, ⟨1, 0, 0⟩]
+  have := h false ⟨0, [0, 1], true, false, 0, 0, 0⟩ [⟨0, 0, 1⟩, ⟨1, 0, 0⟩]
     ⟨1, 0, 0, .changed⟩ (by decide)
   revert this
   decide
@@ -132,11 +132,19 @@ theorem trigger_bypasses_filter (wt : Watcher) (ev : Ev) :
     passes true wt ev = true ∧ (typed true wt ev).type = .triggered := by
   simp [passes, typed, evType]
 
-theorem trigger_runs_update_with_flag_set (c : Cfg) (f : Nat) (ps : List Nat) (w : World) :
+theorem trigger_runs_update_with_flag_set (c : Cfg) (f : Nat) (ps : List Nat) (w : World)
+    (hk : ∀ p ∈ ps, p < c.nparams) :
     (run c (f + 1) (.trigger ps) w).1 =
       (run c f (.update (triggerKvs c w ps)) { w with events := [], queued := [], trigger := true }).1 ∧
     (∀ kv ∈ triggerKvs c w ps, kv.2 = if c.isEvent kv.1 then 1 else getVal w kv.1) := by
-  refine ⟨by simp [run], ?_⟩
+  have hknown : (ps.any (fun p => decide (p ≥ c.nparams))) = false := by
+    rw [Bool.eq_false_iff]
+    intro h
+    obtain ⟨p, hp, hge⟩ := List.any_eq_true.1 h
+    have := hk p hp
+    simp at hge
+    omega
+  refine ⟨by simp [run, hknown], ?_⟩
   exact dedupKeys_values (fun p => if c.isEvent p then 1 else getVal w p) _
     (by intro kv hkv; obtain ⟨p, _, rfl⟩ := List.mem_map.1 hkv; rfl)
 
@@ -224,16 +232,24 @@ theorem update_in_batch_values (c : Cfg) (f : Nat) (kvs : List (Nat × Int)) (w 
 /-- **C04 (`trigger` alters no value other than the transient True of Event parameters).**  Inside
 an open batch — where no callback can interfere — `trigger` leaves the value of every non-Event
 parameter as it was, and every triggered Event parameter is False again when `trigger` returns
-(or raises). -/
+(or raises).  (An unknown name makes `trigger` raise KeyError before it touches anything:
+`trigger_unknown_name_touches_nothing`.) -/
 theorem trigger_changes_no_value (c : Cfg) (f : Nat) (ps : List Nat) (w : World) (hb : w.batch = true)
-    (h : (run c f (.trigger ps) w).1 ≠ .oof) (q : Nat) :
+    (hk : ∀ p ∈ ps, p < c.nparams) (h : (run c f (.trigger ps) w).1 ≠ .oof) (q : Nat) :
     (c.isEvent q = false → getVal (run c f (.trigger ps) w).2.1 q = getVal w q) ∧
     (c.isEvent q = true → q ∈ ps → getVal (run c f (.trigger ps) w).2.1 q = 0) := by
   cases f with
   | zero => simp [run] at h
   | succ f =>
-    simp only [run] at h ⊢
-    have hkv := (trigger_runs_update_with_flag_set c 0 ps w).2
+    have hknown : (ps.any (fun p => decide (p ≥ c.nparams))) = false := by
+      rw [Bool.eq_false_iff]
+      intro h
+      obtain ⟨p, hp, hge⟩ := List.any_eq_true.1 h
+      have := hk p hp
+      simp at hge
+      omega
+    simp only [run, hknown, Bool.false_eq_true, if_false] at h ⊢
+    have hkv := (trigger_runs_update_with_flag_set c 0 ps w hk).2
     have hu := update_in_batch_values c f (triggerKvs c w ps)
       { w with events := [], queued := [], trigger := true } hb h q
     refine ⟨fun hqe => ?_, fun hqe hq => ?_⟩
@@ -246,12 +262,20 @@ theorem trigger_changes_no_value (c : Cfg) (f : Nat) (ps : List Nat) (w : World)
         exact List.mem_map.2 ⟨q, hq, rfl⟩))
       simpa [getVal] using this
 
+theorem trigger_unknown_name_touches_nothing (c : Cfg) (f : Nat) (ps : List Nat) (w : World)
+    (hu : ∃ p ∈ ps, p ≥ c.nparams) :
+    run c (f + 1) (.trigger ps) w = (.raised .key, w, []) := by
+  have : (ps.any (fun p => decide (p ≥ c.nparams))) = true := by
+    obtain ⟨p, hp, hge⟩ := hu
+    exact List.any_eq_true.2 ⟨p, hp, by simpa using hge⟩
+  simp [run, this]
+
 /-! ### Non-vacuity -/
 
 def c04Cfg : Cfg := { bounds := [(none, none), (none, none)], bodies := [] }
 def c04World : World :=
   { vals := [0, 0], batch := false, trigger := false, events := [], queued := [],
-    regs := [⟨0, [0, 1], true, false, 1, 9⟩, ⟨1, [1], false, false, 0, 9⟩] }
+    regs := [⟨0, [0, 1], true, false, 1, 9, 0⟩, ⟨1, [1], false, false, 0, 9, 1⟩] }
 
 -- batch { a = 1; a = 2; b = 0 }: one flush round, watcher 1 (precedence 0) then watcher 0; watcher 0 gets
 -- one event for a carrying 2 — and (the finding) the unchanged event of b
@@ -259,7 +283,7 @@ example : callSigs (run c04Cfg 40 (.stmt (.batch [.set 0 1, .set 0 2, .set 1 0])
 example : (run c04Cfg 40 (.stmt (.batch [.set 0 1, .set 0 2, .set 1 0])) c04World).2.1.ncalls = 2 := by decide
 example : (run c04Cfg 40 (.stmts [.set 0 1, .set 0 2]) { c04World with batch := true }).2.1.events =
     [⟨0, 0, 1⟩, ⟨0, 1, 2⟩] := by decide
-example : evsFor false ⟨0, [0, 1], true, false, 1, 9⟩ [⟨0, 0, 1⟩, ⟨0, 1, 2⟩, ⟨1, 0, 0⟩] =
+example : evsFor false ⟨0, [0, 1], true, false, 1, 9, 0⟩ [⟨0, 0, 1⟩, ⟨0, 1, 2⟩, ⟨1, 0, 0⟩] =
     [⟨0, 1, 2, .changed⟩, ⟨1, 0, 0, .changed⟩] := by decide
 
 end ParamVerif.Dispatch
